@@ -57,11 +57,23 @@ CONTEXTS = {
           '<dtml-try><dtml-var nosuch><dtml-except>%s</dtml-try>',
           '<dtml-try>%s<dtml-finally></dtml-try>',
           '<dtml-if t><dtml-in one><dtml-with o>%s</dtml-with></dtml-in>'
-          '</dtml-if>'],
+          '</dtml-if>',
+          # neighbours in the same body: request data (tainted) and plain
+          # insertions before / after; (source, output before, output after)
+          ('&dtml-tq;|%s', '&lt;i&gt;|', ''),
+          ('<dtml-var tq>%s', '&lt;i&gt;', ''),
+          ('%s&dtml-tq;', '', '&lt;i&gt;'),
+          ('<dtml-var tq html_quote>%s<dtml-var pl>', '&lt;i&gt;', '<b>'),
+          ('<dtml-var pl>%s<dtml-var tq>', '<b>', '&lt;i&gt;'),
+          ('<dtml-in one>&dtml-tq;%s</dtml-in>', '&lt;i&gt;', ''),
+          # the insertion stands in a sub-template whose encoding differs
+          # from the calling page's
+          'SUB'],
     'S': ['%s', '%%(in one)[%s%%(in)]', '%%(if t)[%s%%(if)]',
-          '%%(with o)[%s%%(with)]', '%%(in none)[e%%(else)[%s%%(in)]'],
+          '%%(with o)[%s%%(with)]', '%%(in none)[e%%(else)[%s%%(in)]',
+          ('%%(tq)s%s', '&lt;i&gt;', ''), 'SUB'],
 }
-CTX_NS = dict(one=[1], none=[], maps=[{}], t=1, f=0)
+CTX_NS = dict(one=[1], none=[], maps=[{}], t=1, f=0, pl='<b>')
 
 
 class _O:
@@ -71,15 +83,55 @@ class _O:
 CTX_NS['o'] = _O()
 
 
+def _tainted():
+    from AccessControl.tainted import TaintedString
+    return TaintedString('<i>')
+
+
+CTX_NS['tq'] = _tainted()
+
+
+class _InContext:
+    """A template whose context adds known text around the insertion (or
+    embeds it in a page of another encoding); calling it gives the
+    insertion's own part of the output."""
+
+    def __init__(self, t, pre='', post='', outer=None):
+        self.t, self.pre, self.post, self.outer = t, pre, post, outer
+
+    def __call__(self, **kw):
+        if self.outer is not None:
+            return self.outer(T=self.t, **kw)
+        out = self.t(**kw)
+        pre, post = self.pre, self.post
+        if isinstance(out, str) and out.startswith(pre) and \
+                out.endswith(post) and len(out) >= len(pre) + len(post):
+            return out[len(pre):len(out) - len(post)]
+        return out
+
+
 def tmpl(kind, src, enc=None, ctx=0):
     from DocumentTemplate import HTML, String
+    pre = post = ''
+    sub = False
     if ctx:
-        src = CONTEXTS[kind][ctx % len(CONTEXTS[kind])] % src
-    key = (kind, src, enc)
+        c = CONTEXTS[kind][ctx % len(CONTEXTS[kind])]
+        if c == 'SUB':
+            sub = True
+        elif isinstance(c, tuple):
+            src, pre, post = c[0] % src, c[1], c[2]
+        else:
+            src = c % src
+    key = (kind, src, enc, sub)
     t = _T.get(key)
     if t is None:
         cls = String if kind == 'S' else HTML
         t = cls(src, encoding=enc) if enc else cls(src)
+        if sub:
+            other = 'latin-1' if enc in (None, 'utf-8') else 'utf-8'
+            t = _InContext(t, outer=HTML('<dtml-var T>', encoding=other))
+        elif pre or post:
+            t = _InContext(t, pre, post)
         _T[key] = t
     return t
 
